@@ -164,10 +164,10 @@ CHECKS['C04'] = dict(
                 'that an unprotected rival must overlap. Every invocation/response is stamped; all permutations compatible with real-time order (<=720) are replayed through '
                 'the reference watermark model; some permutation must reproduce every verdict and the final exported state (no double approval, no lost update, no spurious refusal).'),
     level_note='The Go scheduler is steered, not owned: races whose window is not at a storage hook are only sampled. Any outcome of a correctly locked implementation is linearizable whatever the timing.',
-    parts=[part('TestC04', 1500, 7000, qshards=2), part('TestC04Fresh', 150, 1500, qshards=2)],
+    parts=[part('TestC04', 1500, 7000, qshards=2), part('TestC04Fresh', 150, 1500, qshards=2), part('TestC04Big', 200, 1500, qshards=2, tshards=8)],
     rule=('a case is 1-5 rounds; non-trivial iff some round has two requests on the same key and kind whose [invocation,response] intervals overlapped; '
           'distinct = sha256 of the case JSON'),
-    essential=['first-lock-contests', 'overlapping-conflicting-pairs', 'attest||attest', 'attest||attests', 'attests||attests', 'propose||propose', 'parked-at-hook'],
+    essential=['first-lock-contests', 'big:requests-overlapping-the-large-batch', 'overlapping-conflicting-pairs', 'attest||attest', 'attest||attests', 'attests||attests', 'propose||propose', 'parked-at-hook'],
     assumptions=['FAILED answers (none expected without faults) make a round inconclusive, not a violation'],
 )
 
@@ -222,8 +222,8 @@ CHECKS['C13'] = dict(
     rule=('enumerated table: 5 configurations x every message position (n prepares, n executes, n(n-1)/2 contributions) x 3/19 fault kinds, run completely in both tiers and sharded by index; '
           'plus rapid-generated multi-fault plans; a case is non-trivial iff the run reached the faulted message and the fault was delivered; distinct = sha256 of the case JSON'),
     essential=['enumerated-single-fault-cases', 'multi-fault-plan'] + ['delivered:' + k for k in ['lost', 'error-reply', 'duplicate', 'share-random', 'share-for-other-id',
-               'commitment-altered', 'vector-short-consistent', 'vector-long-consistent', 'vector-truncated', 'vector-extended', 'reply-share-random', 'reply-share-for-other-id',
-               'reply-commitment-altered', 'reply-vector-short-consistent', 'reply-vector-long-consistent', 'reply-vector-truncated', 'reply-vector-extended',
+               'commitment-altered', 'vector-short-consistent', 'vector-long-consistent', 'vector-truncated', 'vector-extended', 'vector-empty', 'share-empty', 'reply-share-random', 'reply-share-for-other-id',
+               'reply-commitment-altered', 'reply-vector-short-consistent', 'reply-vector-long-consistent', 'reply-vector-truncated', 'reply-vector-extended', 'reply-vector-empty', 'reply-share-empty',
                'replay-share-random', 'replay-share-for-other-id']],
     assumptions=['herumi BLS is trusted', 'participants are chosen by Dirk (map iteration), so a fault position is "the k-th message of its kind"'],
 )
